@@ -76,8 +76,8 @@ theorem allPlain_cons_recv (a r m c) (xs : List FnArg) :
 
 /-- the generated method of one function satisfies the per-method predicate of C01 -/
 theorem methodCallsFn_ok (opts : Opts) (mode : InputMode) (hm : mode ≠ .implBlock) (src : FnItem) (tf : TraitFn)
-    (hs : FnModeSpec opts src.sig tf) (hid : identOk src.sig.ident = true) :
-    methodCallsFn opts.noDepsValue false src (.fn [] tf.sig (some (delegatingBody mode .none tf))) = true := by
+    (hs : FnModeSpec opts src.sig tf) (hid : identOk src.sig.ident = true) (as : List Attr := []) :
+    methodCallsFn opts.noDepsValue false src (.fn as tf.sig (some (delegatingBody mode .none tf))) = true := by
   obtain ⟨r, hin⟩ := hs.inputs
   have hnr := identOk_notRaw _ hid
   -- the user parameters, attributes stripped; all typed after `typedArgs`
@@ -181,7 +181,8 @@ theorem T_C01 (v : Variant) (attr : Toks) (item : Item) (out : Out)
     simp only [expand] at h
     split at h
     · simp at h
-    · obtain ⟨items, a, fns, tg, depMode, implBlock, h0, h1, h2, _, h4, rfl⟩ := expandMod_ok h
+    · obtain ⟨items, a, fns0, fns, tg, depMode, implBlock, h0, h1, h2, hfns, _, h4, rfl⟩ := expandMod_ok h
+      subst hfns
       have him := genImplBlock_ok h4
       simp only [P_C01, Out.view, View.items, Out.inside, Out.after, mainImpl?, implsOf, List.cons_append,
         List.nil_append, List.getLast?_singleton, Item.sourceFns, h0, effectiveOpts, h1, optsNoDeps]
@@ -191,14 +192,14 @@ theorem T_C01 (v : Variant) (attr : Toks) (item : Item) (out : Out)
         have hid' : (items.filterMap BodyItem.fn?).all (fun f => identOk f.sig.ident) = true := by
           simpa only [Item.identsOk, Item.sourceFns, h0] using hid
         exact fun f hf => List.all_eq_true.mp hid' f hf
-      have := analyzeFns_zip .selfRef (v.apply a.opts)
+      have := analyzeFns_zip_cfg .selfRef (v.apply a.opts)
         (fun s tf => methodCallsFn (v.apply a.opts).noDepsValue false { sig := s }
-          (.fn [] tf.sig (some (delegatingBody .module .none tf))))
-        ((items.filterMap BodyItem.fn?).map (·.sig)) {} tg fns
+          (.fn tf.attrs tf.sig (some (delegatingBody .module .none tf)))) (fun _ _ _ => rfl)
+        ((items.filterMap BodyItem.fn?).map (·.sig)) {} tg fns0 (bodyFnAttrs items)
         (by
           intro s hs tg0 tf tg1 han
           obtain ⟨f, hf, rfl⟩ := List.mem_map.mp hs
-          exact methodCallsFn_ok (v.apply a.opts) .module (by decide) { sig := f.sig } tf (fnModeSpec han) (hids f hf))
+          exact methodCallsFn_ok (v.apply a.opts) .module (by decide) { sig := f.sig } tf (fnModeSpec han) (hids f hf) tf.attrs)
         h2
       rw [zipAll_map_left] at this
       -- the predicate only reads the signature of the source function
